@@ -78,7 +78,8 @@ def progress_rule(model: Model, run: Run) -> None:
     successful read (truthiness of a reader/list that the body shrinks)."""
     from ..anchors import filt as filter_anchors
     fa = filter_anchors(model)
-    targets = [f.qualname for f in fa.parser_functions] + ["sansldap._session.LDAPSession.receive"]
+    from ..regions import decode_region
+    targets = [f.qualname for f in fa.parser_functions] + [r.fi.qualname for r in decode_region(model)]
     n = 0
     for q in targets:
         fi = model.functions.get(q)
